@@ -6,6 +6,7 @@ import SwcVerif.Props.C16Asm
 import SwcVerif.Props.C16AsmGen
 import SwcVerif.Props.C16Gen
 import SwcVerif.Props.C16Tree
+import SwcVerif.Props.C16Tree2
 #print axioms C16Asm.machine_eq_sub
 #print axioms C16Asm.assemble_eq
 #print axioms C16Asm.assemble_sorted
@@ -52,6 +53,15 @@ import SwcVerif.Props.C16Tree
 #print axioms RefineResamTree.resam_tree_eq
 #print axioms C16Tree.generated_resample_tree_eq_compose
 #print axioms C16Tree.generated_resample_tree_wf_partial
+#print axioms RefineSmoothTree.for1_step
+#print axioms RefineSmoothTree.for1_loop
+#print axioms RefineSmoothTree.smooth_tree_eq
+#print axioms C16Tree2.stepCol_frame
+#print axioms C16Tree2.foldl_gather
+#print axioms C16Tree2.pairwise_tree
+#print axioms C16Tree2.good_tree
+#print axioms C16Tree2.generated_smooth_tree
+#print axioms C16Tree2.generated_smooth_tree_endpoints
 #print axioms C16.pairArgmin_spec
 #print axioms C16.pair_step_inv
 #print axioms C16.pair_exact
